@@ -71,4 +71,16 @@ CLAIMED["C14"] = dict(
          "is not a theorem of the model (it fails for strict-order blocks: one recorded finding) and payload "
          "preservation is statement-level; both are checked end-to-end.",
     technique="Rocq proof (engine K1/K2 by induction) + regenerated tables + correspondence + directive-insertion search")
+CLAIMED["C07"] = dict(
+    design_ref="DESIGN.md 4 (C07), 3.4 (K5)",
+    text="Theorem K5 (EVERY table, every leaf oracle that rejects the offending item, any prefix and suffix): "
+         "whatever the outcome, the reader never advances beyond the last line of the offending statement, so a "
+         "FortranSyntaxError is never reported after it (proved by induction over the engine model: every pop is "
+         "either kept in a leaf or pushed straight back). Tie: regenerated tables + exact engine correspondence in "
+         "which the reported line is a compared observable. Search: every statement position of generated programs "
+         "replaced by garbage (5 texts, continued/with braces, with comments, form feed): line and quoted text.",
+    note=ENGINE_NOTE + " Partial (named _partial): only the upper bound on the reported line is proved; that the "
+         "offending statement is reached at all, the message text and the reader's physical-line bookkeeping are "
+         "checked by exhaustive position enumeration. Fixed form excluded (documented look-ahead).",
+    technique="Rocq proof (K5 barrier invariant by induction over engine model) + regenerated tables + correspondence + exhaustive statement-position enumeration")
 NOT_CLAIMED = {}
